@@ -24,6 +24,9 @@ def self_field(o):
     return None
 
 
+OVERLAYS = ('K2b',)
+
+
 def run(chk):
     P = mir.Program("K1")
     chk.use_program(P)
